@@ -182,6 +182,22 @@ class ModelSha:
 _PERMS = {2: [(0, 1), (1, 0)], 3: [(0, 1, 2), (0, 2, 1), (1, 0, 2), (1, 2, 0), (2, 0, 1), (2, 1, 0)]}
 
 
+def _removedirs(rmdir):
+    """os.removedirs in terms of the environment's rmdir (CPython's algorithm): every rmdir is a logged call"""
+    def removedirs(name):
+        rmdir(name)
+        head, tail = posixpath.split(name)
+        if not tail:
+            head, tail = posixpath.split(head)
+        while head and tail:
+            try:
+                rmdir(head)
+            except OSError:
+                break
+            head, tail = posixpath.split(head)
+    return removedirs
+
+
 class BaseEnv:
     perm_listdir = False     # os.listdir order is unspecified: return entries in a solver-chosen order
     chunked = False          # chunked content model (read(n) returns pieces; digests of prefixes)
@@ -288,6 +304,7 @@ class ModelEnv(BaseEnv):
 
         self.os = NS('os', path=path, name='posix', sep='/', stat=stat, lstat=stat, listdir=listdir, mkdir=mkdir,
                      makedirs=makedirs, rename=rename, replace=replace, rmdir=rmdir, remove=remove,
+                     removedirs=_removedirs(rmdir),
                      unlink=remove, fsdecode=_os.fsdecode, fspath=_os.fspath, getcwd=lambda: fs.cwd,
                      PathLike=_os.PathLike, error=OSError)
 
@@ -522,6 +539,7 @@ class RealEnv(BaseEnv):
                      mkdir=w('mkdir', _os.mkdir, True), makedirs=w('makedirs', _os.makedirs, True),
                      rename=w('rename', _os.rename, True, 2), replace=w('replace', _os.replace, True, 2),
                      rmdir=w('rmdir', _os.rmdir, True), remove=w('remove', _os.remove, True),
+                     removedirs=_removedirs(w('rmdir', _os.rmdir, True)),
                      unlink=w('remove', _os.remove, True), fsdecode=_os.fsdecode, fspath=_os.fspath,
                      getcwd=lambda: self.fs.cwd, PathLike=_os.PathLike, error=OSError)
 
